@@ -1,7 +1,17 @@
 import SimVerif.Driver.Common
 import SimVerif.Model.Nms
+import SimVerif.Driver.Geom
 namespace SimVerif.Driver.NmsD
 open SimVerif.Wire SimVerif.Nms SimVerif.Driver
+
+/-- geometry of the boxes of the request (the NMS model itself only needs rank data) -/
+def parseGeo : Nat → List String → Option (List (Geom.UBox Rat))
+  | 0, _ => some []
+  | n+1, a :: h :: _s :: xc :: yc :: ang :: _stale :: ts => do
+    let a ← rat? a; let h ← rat? h; let xc ← rat? xc; let yc ← rat? yc; let ang ← optTok rat? ang
+    let rest ← parseGeo n ts
+    pure ({ xc := xc, yc := yc, angle := ang, aspect := a, height := h, conf := 1 } :: rest)
+  | _, _ => none
 
 /-- request: `n (aspect height score|- xc yc angle|- stale)*n thr sthr|- => covbits(n*n of 0/1, row a col b = cov a b) kept(list) again(list)` -/
 def parseBoxes : Nat → Nat → List String → Option (List (Box Nat) × List String)
@@ -59,6 +69,31 @@ def handle (args impl : List String) : String :=
       | some (again, _) =>
       let covArr := covBits.toArray
       let cov : Box Nat → Box Nat → Bool := fun a b => covArr.getD (a.item * n + b.item) "0" == "1"
+      -- the driver's own coverage predicate: exact intersection of the model polygons (cos / sin of the angles from the
+      -- executor) over the area of the covered box, against the nms threshold; inside a guard band the implementation's bit stands
+      let geo := (parseGeo n (args.drop 1)).getD []
+      let thr := (rat? _thr).getD 0
+      let csTail : List String := (GeomD.afterCS impl).getD []
+      let csVals : List Rat := csTail.filterMap rat?
+      let polys : Array (List GeomD.P) := ((List.range n).map (fun i =>
+        match geo[i]? with
+        | some u => Geom.vertices u (csVals.getD (2 * i) 1) (csVals.getD (2 * i + 1) 0)
+        | none => [])).toArray
+      let validB (i : Nat) : Bool := match geo[i]? with | some u => decide (u.height > 0) && decide (u.aspect > 0) | none => false
+      let refBit (a b : Nat) : Option Bool :=     -- none: undecided (guard band / no geometry)
+        if a == b || !validB a || !validB b then some false else
+        match geo[a]?, geo[b]? with
+        | some ua, some ub =>
+          let dd := (ua.xc - ub.xc) * (ua.xc - ub.xc) + (ua.yc - ub.yc) * (ua.yc - ub.yc)
+          if dd > 2 * (Geom.radiusSq ua + Geom.radiusSq ub) then some false else
+          let ratio := GeomD.refInterArea (polys.getD a []) (polys.getD b []) / Geom.area ub
+          if rabs (ratio - thr) ≤ 1 / 5000 then none else some (decide (ratio > thr))
+        | _, _ => none
+      let haveCS := csVals.length == 2 * n && geo.length == n
+      let covMismatch := haveCS && (List.range n).any (fun a => (List.range n).any (fun b =>
+        match refBit a b with
+        | some r => r != (covArr.getD (a * n + b) "0" == "1")
+        | none => false))
       let model := (nms cov sthr boxes).map (·.item)
       let implOut := kept.filterMap (fun i => boxes[i]?)
       let o1 := oracle cov sthr boxes implOut
@@ -68,11 +103,11 @@ def handle (args impl : List String) : String :=
       let ranks := (boxes.filter (passes sthr)).map rank
       let res : Res := {
         k := model == kept
-        o := o1 && o2
+        o := o1 && o2 && !covMismatch
         flags := flag (model.length < nPass) "dropped" ++ flag (model.length > 1) "multi-kept" ++
                  flag (nPass < n) "filtered" ++ flag (ranks.eraseDups.length < ranks.length) "rank-tie" ++
-                 flag (n == 0) "empty"
-        detail := s!"model={model} impl={kept} again={again} o1={o1} o2={o2}" }
+                 flag (n == 0) "empty" ++ flag haveCS "coverage-reference-checked" ++ flag covMismatch "coverage-predicate-wrong"
+        detail := s!"model={model} impl={kept} again={again} o1={o1} o2={o2} covMismatch={covMismatch}" }
       res.line
     | _ => bad "tail"
   | _ => bad "args"
